@@ -3,11 +3,17 @@
 import os, sys, json, subprocess, glob
 sys.path.insert(0, "/verif/bin")
 from wwlib import props as P
-only = sys.argv[1:]
+only = [a for a in sys.argv[1:] if not a.startswith("--")]
+# --shard=i/n : every n-th seed starting at i (run n of these side by side, each with WW_REPO=<its own worktree> and WW_OUT=<its own dir>)
+shard = next((a[8:] for a in sys.argv[1:] if a.startswith("--shard=")), None)
 rows = []
+_k = -1
 for d in sorted(glob.glob("/verif/seeded/*/")):
     name = os.path.basename(d.rstrip("/"))
     if only and not any(name.startswith(o) for o in only): continue
+    if not os.path.exists(d + "meta.json"): continue
+    _k += 1
+    if shard and _k % int(shard.split("/")[1]) != int(shard.split("/")[0]): continue
     meta = json.load(open(d + "meta.json"))
     props = [meta["property"]] + [p for p in meta.get("also_check", []) if p != meta["property"]]
     props = [p for p in props if p in P.PROPS]
